@@ -51,6 +51,7 @@ class Ctx:
         self._X = None
         self.E = Effects(self.P, self.R)
         self.tier = tier
+        self.unroll = 2 if tier == "thorough" else 1  # loop unrolling of the path queries
         self.obs = []
         self.counts = {}
         self.cur_rule = None
@@ -195,6 +196,11 @@ def run_property(pid, tier="quick", sources=None, rules_only=None, write=True, q
             ctx.ob("rule:" + rid, "-", ERROR, "internal error in rule: %r (%s)" % (e, tb[-3].strip() if len(tb) >= 3 else ""))
         if len(ctx.obs) == n0:
             ctx.ob("rule:" + rid, "-", ERROR, "rule produced no obligation (vacuous)")
+    # thorough tier: engine cross-checks ----------------------------------------
+    if tier == "thorough" and not rules_only:
+        run_engine_checks(ctx, pid)
+        if sources is None:
+            run_selfvalidation(ctx, pid)
     # positive controls for zero-expected rules ---------------------------------
     if not rules_only:
         run_controls(ctx, pid, [rid for rid, _ in todo])
@@ -237,6 +243,50 @@ def run_property(pid, tier="quick", sources=None, rules_only=None, write=True, q
               % (pid, tier, sum(1 for o in ctx.obs if o.verdict != INFO), nd, len(new_viol), len(known_hit),
                  len(incs), len(errs), sum(1 for o in ctx.obs if o.verdict == INFO), time.time() - t0, code))
     return code, ctx
+
+
+def run_engine_checks(ctx, pid):
+    """Thorough tier: (a) store/delete sites seen by the AST extractor == sites in the compiled
+    bytecode; (b) who-may-write closed over the whole package including trie/tools."""
+    from .bytecode import cross_check
+    ctx.cur_rule = "ENGINE"
+    try:
+        n, bad = cross_check(ctx)
+        if bad:
+            for b in bad[:5]:
+                ctx.ob("bytecode-cross-extraction", b.split(":")[0], ERROR, "analyser blind spot: " + b)
+        else:
+            ctx.ob("bytecode-cross-extraction", "trie/", DISCHARGED,
+                   "store / delete sites of all %d functions agree between the AST extractor and the compiled bytecode" % n, True)
+    except Exception as e:
+        ctx.ob("bytecode-cross-extraction", "-", ERROR, "cross-extraction failed: %r" % (e,))
+    tools = [f for f in ctx.P.funcs.values() if f.module.is_tools]
+    offenders = []
+    for f in tools:
+        for e in ctx.E.primitives(f):
+            if e.state in ("DB", "WDB", "ROOT", "RC", "PEND", "CACHE") and e.op in ("W", "D", "SET", "M"):
+                offenders.append("%s: %s %s at %s" % (f.qual, e.op, e.state, e.where()))
+    if offenders:
+        ctx.ob("tools-closure", "trie/tools", VIOLATION, "trie/tools touches trie state directly: " + offenders[0], True)
+    else:
+        ctx.ob("tools-closure", "trie/tools", DISCHARGED,
+               "the %d functions of trie/tools modify trie state only through the public API (no primitive db / root / count effect)" % len(tools), True)
+
+
+def run_selfvalidation(ctx, pid):
+    """Thorough tier: the rules of this property on in-memory variants of the current tree
+    (must-fire and must-stay-silent).  A failure means the checker is broken: exit 2."""
+    from . import selftest
+    ctx.cur_rule = "SELFTEST"
+    vs = selftest.thorough_variants(pid)
+    res, fails = selftest.run(vs, jobs=16, verbose=False)
+    for vid, status, msg in res:
+        if status == "ok":
+            ctx.ob("variant:" + vid, "pta/variants.py", DISCHARGED, msg, True)
+        elif status == "skipped":
+            ctx.ob("variant:" + vid, "pta/variants.py", INFO, "skipped, anchor text no longer present: " + msg)
+        else:
+            ctx.ob("variant:" + vid, "pta/variants.py", ERROR, "checker self-validation failed: " + msg)
 
 
 def run_controls(ctx, pid, rule_ids):
